@@ -115,7 +115,7 @@ def main():
     env = dict(os.environ)
     env.update({"CARGO_NET_OFFLINE": "true", "CARGO_TARGET_DIR": os.path.join(wt, "target")})
     cenv = dict(os.environ)
-    cenv.update({"PPP_REPO": wt, "VERIF_SEARCH": "0"})
+    cenv.update({"PPP_REPO": wt, "VERIF_SEARCH": "0", "VERIF_EVIDENCE_DIR": os.path.join(VERIF, "work", "evidence-scratch")})
     results = []
     if os.path.exists(outp):
         results = json.load(open(outp))
